@@ -74,6 +74,7 @@ type cluster struct {
 	watchGroup *threading.RoutineGroup
 	done       chan lang.PlaceholderType
 	lock       sync.Mutex
+	reloadLock sync.Mutex
 }
 
 func newCluster(endpoints []string) *cluster {
@@ -122,9 +123,19 @@ func (c *cluster) watchConnState(cli EtcdClient) {
 }
 
 func (c *cluster) reload(cli EtcdClient) {
+	// 重载之间互斥；等待旧监控器退出时不能持有 c.lock：
+	// 它们可能正在 handleWatchEvents 里等这把锁（否则两边互相等待，永远死锁）
+	c.reloadLock.Lock()
+	defer c.reloadLock.Unlock()
+
 	c.lock.Lock()
 	close(c.done)
-	c.watchGroup.Wait()
+	group := c.watchGroup
+	c.lock.Unlock()
+
+	group.Wait()
+
+	c.lock.Lock()
 	c.done = make(chan lang.PlaceholderType)
 	c.watchGroup = threading.NewRoutineGroup()
 	var keys []string
